@@ -194,8 +194,12 @@ func evTry(f func()) ev.Outcome { return ev.Try(f) }
 // Guard returns a copy of b that sits in a larger allocation: len(copy) == len(b) but the backing array
 // continues with 64 sentinel bytes (spare capacity the callee can reach with append or re-slicing). intact()
 // reports whether both the visible bytes and the spare capacity are still what they were.
-func Guard(b []byte) (g []byte, intact func() bool) {
-	buf := make([]byte, len(b)+64)
+func Guard(b []byte) (g []byte, intact func() bool) { return GuardN(b, 64) }
+
+// GuardN is Guard with a chosen amount of spare capacity (a callee that appends k bytes to its argument only
+// writes into the caller's memory when at least k bytes are spare).
+func GuardN(b []byte, spare int) (g []byte, intact func() bool) {
+	buf := make([]byte, len(b)+spare)
 	copy(buf, b)
 	for i := len(b); i < len(buf); i++ {
 		buf[i] = 0xA5
